@@ -22,6 +22,7 @@ const (
 	pkLocal
 	pkRangeIdx // index of the element processed last by a range loop (-1 before the first)
 	pkCallRes  // result_of(k, f): what the k-th call of f in this function returned (its latest execution)
+	pkCallArg  // arg_of(k, f, i): the i-th argument of that call (0 = the receiver of a method call)
 )
 
 type ClauseParam struct {
@@ -382,12 +383,14 @@ func splitTop(s string, sep byte) []string {
 //   forall x T :: body             __forallT(func(x T) bool { return body })
 //   old(e)           __old(e)
 var resultOfRe = regexp.MustCompile(`\bresult_of\(\s*([0-9]+)\s*,\s*([A-Za-z_][A-Za-z0-9_]*)\s*\)`)
+var argOfRe = regexp.MustCompile(`\barg_of\(\s*([0-9]+)\s*,\s*([A-Za-z_][A-Za-z0-9_]*)\s*,\s*([0-9]+)\s*\)`)
 var beforeRe = regexp.MustCompile(`\bbefore\(([A-Za-z_][A-Za-z0-9_]*)\)`)
 
 func rewriteSpec(s string) string {
 	// before(x): the value a scalar local had at the clause's "since" snapshot
 	s = beforeRe.ReplaceAllString(s, "before_$1")
 	s = resultOfRe.ReplaceAllString(s, "resultof_${1}_$2")
+	s = argOfRe.ReplaceAllString(s, "argof_${1}_${3}_$2")
 	s = strings.ReplaceAll(s, "old(", "__old(")
 	s = strings.ReplaceAll(s, "__ __old(", "__old(")
 	return rewriteGroup(s)
